@@ -2,6 +2,7 @@ package main
 
 import (
 	"fmt"
+	"go/constant"
 	"go/token"
 	"go/types"
 	"sort"
@@ -148,6 +149,9 @@ func checkC09(w *World, c *Check, tier string) {
 			}
 		}
 	}
+
+	c.floor("C09.complete", 5)
+	checkEqualsComplete(w, c, pr)
 
 	// ---- idtype ----
 	objPtr := types.NewPointer(obj.Named)
@@ -999,6 +1003,47 @@ func checkC19(w *World, c *Check, tier string) {
 					}
 				}
 				if !under {
+					// the position of the match was kept and the text is read after the search (at := -1; … at = i; break;
+					// return n[at].Value): every position the index can hold was assigned where the tag test holds, the
+					// search was left right there, and the sentinel is excluded by a test of the index before the read
+					if phi := capturedIndexOf(unwrap(v)); phi != nil {
+						okAll, sawIdx, needGuard := true, false, false
+						for i, e := range phi.Edges {
+							if _, isConst := e.(*ssa.Const); isConst {
+								needGuard = true
+								continue
+							}
+							pred := phi.Block().Preds[i]
+							u := false
+							for _, g := range rawGuards(pred) {
+								if refTestHolds(g, get) {
+									u = true
+								}
+							}
+							if !u {
+								okAll = false
+							}
+							for h := range loops[pred] {
+								if reachesWithin(pred, h, nil) {
+									bad = "Get keeps searching after a matching entry: it returns the text of the LAST entry with the tag, not the first"
+									return
+								}
+							}
+							sawIdx = true
+						}
+						if needGuard {
+							guarded := false
+							for _, g := range rawGuards(at) {
+								if bo, ok := g.cond.(*ssa.BinOp); ok && (bo.X == ssa.Value(phi) || bo.Y == ssa.Value(phi)) {
+									guarded = true
+								}
+							}
+							okAll = okAll && guarded
+						}
+						under = okAll && sawIdx
+					}
+				}
+				if !under {
 					bad = "Get can return the text of an entry that was not tested for 'entry tag == requested tag'"
 					return
 				}
@@ -1037,13 +1082,15 @@ func checkC19(w *World, c *Check, tier string) {
 	//             it, or it sits on the false side of a flag that is a phi of constants (the found-flag idiom);
 	//             and it is reachable when nothing matched.
 	if set != nil {
-		storeOK, storeSeen := true, false
-		var storeBlocks []*ssa.BasicBlock
 		var appendCalls []*ssa.Call
-		for _, b := range set.Blocks {
-			for _, in := range b.Instrs {
-				switch x := in.(type) {
-				case *ssa.Store:
+		scanStores := func(fn *ssa.Function) (storeOK, storeSeen bool, storeBlocks []*ssa.BasicBlock) {
+			storeOK = true
+			for _, b := range fn.Blocks {
+				for _, in := range b.Instrs {
+					x, isStore := in.(*ssa.Store)
+					if !isStore {
+						continue
+					}
 					if ia, isIdx := x.Addr.(*ssa.IndexAddr); isIdx {
 						if _, local := ia.X.(*ssa.Alloc); local {
 							continue // the temporary array of a variadic call
@@ -1052,7 +1099,7 @@ func checkC19(w *World, c *Check, tier string) {
 						storeBlocks = append(storeBlocks, b)
 						under := false
 						for _, g := range rawGuards(b) {
-							if refTestHolds(g, set) {
+							if refTestHolds(g, fn) {
 								under = true
 							}
 						}
@@ -1060,13 +1107,50 @@ func checkC19(w *World, c *Check, tier string) {
 							storeOK = false
 						}
 					}
-				case *ssa.Call:
+				}
+			}
+			return
+		}
+		for _, b := range set.Blocks {
+			for _, in := range b.Instrs {
+				if x, ok := in.(*ssa.Call); ok {
 					if calleeNamed(x, "Append") || calleeNamed(x, "Add") {
 						appendCalls = append(appendCalls, x)
 					}
 					if bi, ok := x.Common().Value.(*ssa.Builtin); ok && bi.Name() == "append" {
 						appendCalls = append(appendCalls, x)
 					}
+				}
+			}
+		}
+		searchFn := set
+		var helperCall *ssa.Call
+		storeOK, storeSeen, storeBlocks := scanStores(set)
+		if !storeSeen {
+			// the search-and-overwrite may have been moved into a helper that is handed the list and the tag and reports
+			// whether it overwrote anything: the in-place and first-entry rules then apply to the helper, the append
+			// rule to Set with the helper's result as the found flag
+			for _, call := range callsIn(set) {
+				h := call.Common().StaticCallee()
+				if h == nil || !w.InPkg(h) || h.Blocks == nil || len(h.Params) < 2 || calleeNamed(call, "Append") || calleeNamed(call, "Add") {
+					continue
+				}
+				takesList := false
+				for _, a := range call.Common().Args {
+					if a == ssa.Value(set.Params[0]) {
+						takesList = true
+					}
+					if ld, isLd := unwrap(a).(*ssa.UnOp); isLd && ld.Op == token.MUL && ld.X == ssa.Value(set.Params[0]) {
+						takesList = true
+					}
+				}
+				if !takesList {
+					continue
+				}
+				if ok2, seen2, blocks2 := scanStores(h); seen2 {
+					searchFn, helperCall = h, call
+					storeOK, storeSeen, storeBlocks = ok2, seen2, blocks2
+					break
 				}
 			}
 		}
@@ -1077,7 +1161,7 @@ func checkC19(w *World, c *Check, tier string) {
 			c.ok("C19.set", "Set:in-place", w.FuncPos(set), "overwrites only the entry whose tag matches")
 		}
 		// the search loop and its direction
-		loops := loopHeaders(set)
+		loops := loopHeaders(searchFn)
 		firstBad := ""
 		for _, sb := range storeBlocks {
 			var header *ssa.BasicBlock
@@ -1158,10 +1242,17 @@ func checkC19(w *World, c *Check, tier string) {
 		if len(appendCalls) == 0 {
 			appendBad = "Set never appends: a tag that is not present cannot be set"
 		}
+		if helperCall != nil {
+			// from Set's point of view the overwriting happens where the helper is called
+			storeBlocks = []*ssa.BasicBlock{helperCall.Block()}
+		}
 		for _, ac := range appendCalls {
 			ab := ac.Block()
 			flagGuard := false
 			for _, g := range rawGuards(ab) {
+				if helperCall != nil && unwrap(g.cond) == ssa.Value(helperCall) && !g.onTrue && returnsConstFlag(searchFn) {
+					flagGuard = true
+				}
 				if phi, ok := g.cond.(*ssa.Phi); ok && !g.onTrue {
 					allConst := true
 					for _, e := range phi.Edges {
@@ -1214,7 +1305,9 @@ func checkC19(w *World, c *Check, tier string) {
 			// reachable when nothing matched: a path from entry that avoids every store block
 			avoid := map[*ssa.BasicBlock]bool{}
 			for _, sb := range storeBlocks {
-				avoid[sb] = true
+				if helperCall == nil {
+					avoid[sb] = true
+				}
 			}
 			seen := map[*ssa.BasicBlock]bool{set.Blocks[0]: true}
 			work := []*ssa.BasicBlock{set.Blocks[0]}
@@ -1700,4 +1793,190 @@ func pairTableRows(a, b ssa.Value) ([][2]ssa.Value, bool) {
 		}
 	}
 	return rows, len(rows) > 0
+}
+
+// capturedIndexOf: v is (a field of) list[idx] with idx a phi that is not a loop counter (a remembered position);
+// returns that phi.
+func capturedIndexOf(v ssa.Value) *ssa.Phi {
+	var ia *ssa.IndexAddr
+	switch x := v.(type) {
+	case *ssa.UnOp:
+		if x.Op != token.MUL {
+			return nil
+		}
+		switch a := x.X.(type) {
+		case *ssa.FieldAddr:
+			ia, _ = a.X.(*ssa.IndexAddr)
+		case *ssa.IndexAddr:
+			ia = a
+		}
+	case *ssa.Field:
+		if ld, ok := x.X.(*ssa.UnOp); ok && ld.Op == token.MUL {
+			ia, _ = ld.X.(*ssa.IndexAddr)
+		}
+	}
+	if ia == nil {
+		return nil
+	}
+	phi, _ := ia.Index.(*ssa.Phi)
+	if phi == nil {
+		return nil
+	}
+	// a loop counter feeds itself (i = i + 1): a remembered position does not
+	for _, e := range phi.Edges {
+		if bo, ok := e.(*ssa.BinOp); ok && (bo.X == ssa.Value(phi) || bo.Y == ssa.Value(phi)) {
+			return nil
+		}
+	}
+	return phi
+}
+
+// returnsConstFlag: every value fn can return is a boolean constant (through phis): a found flag.
+func returnsConstFlag(fn *ssa.Function) bool {
+	n := 0
+	for _, rb := range returnBlocks(fn) {
+		ret := rb.Instrs[len(rb.Instrs)-1].(*ssa.Return)
+		if len(ret.Results) != 1 {
+			return false
+		}
+		for _, leaf := range phiLeaves(ret.Results[0]) {
+			if k, ok := leaf.(*ssa.Const); !ok || k.Value == nil || k.Value.Kind() != constant.Bool {
+				return false
+			}
+			n++
+		}
+	}
+	return n > 0
+}
+
+// checkEqualsComplete (C09.complete): inside an Equals method (and the callback it hands to a typed-view helper) every
+// way out that can leave the verdict "equal" has passed the comparison of every property the unit compares — the
+// branch that tests whether the property is set, or the comparison itself. A shortcut that returns early ("same id and
+// same updated instant: same revision, no need to walk the properties") leaves every property uncompared for the
+// values that take it: a copy that differs in any one of them stays equal to the original, in both argument orders.
+func checkEqualsComplete(w *World, c *Check, pr *prover) {
+	n := 0
+	for _, s := range w.itemStructs() {
+		m := w.Method(s.Obj().Name(), "Equals")
+		if m == nil || m.Blocks == nil {
+			continue
+		}
+		units := append([]*ssa.Function{m}, allAnon(m)...)
+		for ui, u := range units {
+			// property regions: branch blocks whose condition reads property P of a vocabulary struct
+			regions := map[string]map[*ssa.BasicBlock]bool{}
+			for _, b := range u.Blocks {
+				br, ok := b.Instrs[len(b.Instrs)-1].(*ssa.If)
+				if !ok {
+					continue
+				}
+				for _, r := range pr.prov(br.Cond).list() {
+					if len(r.Names) == 0 || r.RootType == nil || w.StructInfoOf(r.RootType.Obj().Name()) == nil {
+						continue
+					}
+					p := r.Names[0]
+					if p == "ID" || p == "Type" {
+						continue
+					}
+					if regions[p] == nil {
+						regions[p] = map[*ssa.BasicBlock]bool{}
+					}
+					regions[p][b] = true
+				}
+			}
+			if len(regions) < 2 {
+				continue
+			}
+			var props []string
+			for p := range regions {
+				props = append(props, p)
+			}
+			sort.Strings(props)
+			nR := 0
+			// blocks that settle the verdict "not equal": a store of the constant false into the verdict variable. Paths
+			// through them are not paths to an "equal" verdict.
+			isFalse := func(v ssa.Value) bool {
+				k, ok := v.(*ssa.Const)
+				return ok && k.Value != nil && k.Value.Kind() == constant.Bool && !constant.BoolVal(k.Value)
+			}
+			blocked := map[*ssa.BasicBlock]bool{}
+			for _, b := range u.Blocks {
+				for _, in := range b.Instrs {
+					if st, ok := in.(*ssa.Store); ok && isFalse(st.Val) {
+						switch st.Addr.(type) {
+						case *ssa.FreeVar, *ssa.Alloc:
+							blocked[b] = true
+						}
+					}
+				}
+			}
+			for _, rb := range returnBlocks(u) {
+				ret := rb.Instrs[len(rb.Instrs)-1].(*ssa.Return)
+				if len(ret.Results) == 1 {
+					if phi, ok := ret.Results[0].(*ssa.Phi); ok && phi.Block() == rb {
+						for ei, e := range phi.Edges {
+							if isFalse(e) && len(rb.Preds[ei].Succs) == 1 {
+								blocked[rb.Preds[ei]] = true
+							}
+						}
+					}
+				}
+			}
+			for _, rb := range returnBlocks(u) {
+				ret := rb.Instrs[len(rb.Instrs)-1].(*ssa.Return)
+				// a verdict of "not equal": the constant false, or a store of false into the captured verdict right here
+				falseVerdict := blocked[rb]
+				if len(ret.Results) == 1 {
+					if k, ok := ret.Results[0].(*ssa.Const); ok && k.Value != nil && k.Value.Kind() == constant.Bool && !constant.BoolVal(k.Value) {
+						falseVerdict = true
+					}
+				}
+				for _, in := range rb.Instrs {
+					if st, ok := in.(*ssa.Store); ok {
+						if k, isC := st.Val.(*ssa.Const); isC && k.Value != nil && k.Value.Kind() == constant.Bool && !constant.BoolVal(k.Value) {
+							if _, isFV := st.Addr.(*ssa.FreeVar); isFV {
+								falseVerdict = true
+							}
+						}
+					}
+				}
+				if falseVerdict {
+					continue
+				}
+				nR++
+				var missed []string
+				for _, p := range props {
+					if regions[p][rb] {
+						continue
+					}
+					seenB := map[*ssa.BasicBlock]bool{}
+					work := []*ssa.BasicBlock{u.Blocks[0]}
+					reached := false
+					for len(work) > 0 && !reached {
+						b := work[len(work)-1]
+						work = work[:len(work)-1]
+						if seenB[b] || regions[p][b] || blocked[b] {
+							continue
+						}
+						seenB[b] = true
+						if b == rb {
+							reached = true
+						}
+						work = append(work, b.Succs...)
+					}
+					if reached {
+						missed = append(missed, p)
+					}
+				}
+				n++
+				key := fmt.Sprintf("%s.Equals:unit#%d:return#%d", s.Obj().Name(), ui, nR)
+				if len(missed) > 0 {
+					c.bad("C09.complete", key, w.InstrPos(ret), fmt.Sprintf("%s can report 'equal' on a path that has compared none of %s: whatever decides to take that path (same id, same timestamp, a cached verdict) stands in for the properties, so a copy that differs in one of them still compares equal", funcName(u), strings.Join(missed, ", ")))
+				} else {
+					c.ok("C09.complete", key, w.InstrPos(ret), fmt.Sprintf("every path passes the comparison of all %d properties", len(props)))
+				}
+			}
+		}
+	}
+	c.stat("equals_exits", n)
 }
